@@ -14,6 +14,13 @@ package main
 //     ExitGroup, compared (go/printer text without comments and layout) with the forms the Lean
 //     model interprets, and the number of mentions of the field `.grouped` in package ast.
 //
+//   - ast/node_convert.go, node_expr.go, helper.go, node_query.go: signature + body of
+//     BooleanLogicExprNode.TypeTransformBool, UntypedNotExprNode.TypeTransformBool, EvalBool of
+//     AndExprNode / OrExprNode / NotExprNode, transformTypes, transformBools, PostProcess,
+//     untypedQueryNode.TypeTransformBool, compared in the same way with the forms the model's
+//     `transform` / `T.eval` follow (`boolTransform : TransformShape`): a simplification or rewrite
+//     of the typed tree added there breaks obligation `transform_is_plain`.
+//
 // The generated parser is what runs; the .g4 file only documents it.  Both are emitted so that
 // the Lean side can check that they still tell the same story (obligation
 // `parser_numbers_match_grammar`) and so that the parser model is instantiated with the numbers
@@ -59,6 +66,7 @@ type grammarFacts struct {
 	StartCalls []int             `json:"startCalls"`
 	Listener   map[string]string `json:"listenerMethods"`
 	GroupedUse int               `json:"groupedUses"`
+	Typing     map[string]string `json:"typingFunctions"`
 	ParserHash string            `json:"parserSha256"`
 	LexerHash  string            `json:"lexerSha256"`
 	Notes      []string          `json:"notes,omitempty"`
@@ -502,6 +510,29 @@ func extractGrammar(repo, gen, facts string) {
 		}
 	}
 
+	// ---- what happens to the boolean structure after the listener: typing and evaluation
+	res.Typing = map[string]string{}
+	for _, tf := range g4TypingFuncs {
+		f, err := parser.ParseFile(token.NewFileSet(), filepath.Join(repo, "ast", tf.file), nil, 0)
+		if err != nil {
+			res.Notes = append(res.Notes, "cannot parse ast/"+tf.file+": "+err.Error())
+			continue
+		}
+		for _, d := range f.Decls {
+			fd, ok := d.(*ast.FuncDecl)
+			if !ok || fd.Body == nil {
+				continue
+			}
+			if (tf.recv == "" && fd.Recv == nil && fd.Name.Name == tf.name) || (tf.recv != "" && g4IsMethod(fd, tf.recv, tf.name)) {
+				var b strings.Builder
+				_ = printer.Fprint(&b, token.NewFileSet(), fd.Type)
+				b.WriteString(" ")
+				_ = printer.Fprint(&b, token.NewFileSet(), fd.Body)
+				res.Typing[tf.key()] = strings.Join(strings.Fields(b.String()), " ")
+			}
+		}
+	}
+
 	js, _ := json.MarshalIndent(res, "", " ")
 	writeIfChanged(filepath.Join(facts, "grammar.json"), string(js)+"\n")
 	writeIfChanged(filepath.Join(gen, "Grammar.lean"), grammarLean(&res))
@@ -544,6 +575,69 @@ func g4ListenerLean(res *grammarFacts) string {
 		and, or, not, grp, res.GroupedUse)
 }
 
+// the functions of package ast that type and evaluate the boolean structure after the listener;
+// `want` is the canonical text (go/printer output of signature + body, comments dropped,
+// whitespace collapsed) of the form the Lean model (`transform`, `T.eval` of
+// StorageModel/C12/Skel.lean) follows
+type g4TypingFunc struct {
+	file, recv, name string
+	field            string // field of TransformShape the function belongs to
+	want             string
+}
+
+func (t g4TypingFunc) key() string {
+	if t.recv == "" {
+		return t.name
+	}
+	return t.recv + "." + t.name
+}
+
+var g4TypingFuncs = []g4TypingFunc{
+	{"node_convert.go", "BooleanLogicExprNode", "TypeTransformBool", "binTransform",
+		`func(s SymbolTypes) (BoolNode, error) { if err := transformTypes(s, &node.left, &node.right); err != nil { return node, err } left, ok := node.left.(BoolNode) if !ok { return node, errors.Errorf("boolean logic expression LHS is of type %v, not bool", reflect.TypeOf(node.left)) } right, ok := node.right.(BoolNode) if !ok { return node, errors.Errorf("boolean logic expression RHS is of type %v, not bool", reflect.TypeOf(node.right)) } if node.op == AndOp { return &AndExprNode{left, right}, nil } if node.op == OrOp { return &OrExprNode{left, right}, nil } return node, errors.Errorf("unsupported boolean logic expression operation %v", node.op) }`},
+	{"node_convert.go", "UntypedNotExprNode", "TypeTransformBool", "notTransform",
+		`func(s SymbolTypes) (BoolNode, error) { if err := transformTypes(s, &node.expr); err != nil { return node, err } boolNode, ok := node.expr.(BoolNode) if !ok { return node, errors.Errorf("not expr must wrap bool expr. contains %v", reflect.TypeOf(node.expr)) } return &NotExprNode{expr: boolNode}, nil }`},
+	{"node_expr.go", "AndExprNode", "EvalBool", "andEval",
+		`func(s Symbols) bool { if !node.left.EvalBool(s) { return false } return node.right.EvalBool(s) }`},
+	{"node_expr.go", "OrExprNode", "EvalBool", "orEval",
+		`func(s Symbols) bool { leftResult := node.left.EvalBool(s) if leftResult { return true } return node.right.EvalBool(s) }`},
+	{"node_expr.go", "NotExprNode", "EvalBool", "notEval",
+		`func(s Symbols) bool { val := node.expr.EvalBool(s) return !val }`},
+	{"node_convert.go", "", "transformTypes", "glue",
+		`func(s SymbolTypes, nodes ...*Node) error { for _, node := range nodes { if sp, ok := (*node).(TypeTransformable); ok { transformed, err := sp.TypeTransform(s) if err != nil { return err } *node = transformed } if sp, ok := (*node).(BoolTypeTransformable); ok { transformed, err := sp.TypeTransformBool(s) if err != nil { return err } *node = transformed } } return nil }`},
+	{"helper.go", "", "transformBools", "glue",
+		`func(s SymbolTypes, nodes ...*BoolNode) error { for _, node := range nodes { if sp, ok := (*node).(BoolTypeTransformable); ok { transformed, err := sp.TypeTransformBool(s) if err != nil { return err } *node = transformed } } return nil }`},
+	{"helper.go", "", "PostProcess", "glue",
+		`func(symbolTypes SymbolTypes, node *BoolNode) error { setSymbolValidator := &SymbolValidator{symbolTypes: symbolTypes} (*node).Accept(setSymbolValidator) if setSymbolValidator.HasError() { return setSymbolValidator.GetError() } return transformBools(symbolTypes, node) }`},
+	{"node_query.go", "untypedQueryNode", "TypeTransformBool", "glue",
+		`func(s SymbolTypes) (BoolNode, error) { if err := transformTypes(s, &node.predicate); err != nil { return node, err } if _, err := node.sortBy.TypeTransform(s); err != nil { return node, err } boolNode, ok := node.predicate.(BoolNode) if !ok { return node, errors.Errorf("query expr predicate must be a boolean expr. contains %v", reflect.TypeOf(node.predicate)) } return &queryNode{Predicate: boolNode, SortBy: node.sortBy, Skip: node.skip, Limit: node.limit}, nil }`},
+}
+
+func g4TransformLean(res *grammarFacts) string {
+	fields := []string{"binTransform", "notTransform", "andEval", "orEval", "notEval", "glue"}
+	form := map[string]string{}
+	for _, tf := range g4TypingFuncs {
+		got, ok := res.Typing[tf.key()]
+		f := "plain"
+		if !ok {
+			f = "absent"
+		} else if got != tf.want {
+			f = "unknown"
+		}
+		// a field covering several functions is plain only if all of them are
+		if cur, seen := form[tf.field]; !seen || cur == "plain" {
+			form[tf.field] = f
+		}
+	}
+	var parts []string
+	for _, f := range fields {
+		parts = append(parts, fmt.Sprintf("%s := .%s", f, form[f]))
+	}
+	return "/-- how BooleanLogicExprNode.TypeTransformBool / UntypedNotExprNode.TypeTransformBool, EvalBool of\n" +
+		"    AndExprNode / OrExprNode / NotExprNode and the transformTypes glue of package ast are written -/\n" +
+		"def boolTransform : TransformShape :=\n  { " + strings.Join(parts[:3], ", ") + ",\n    " + strings.Join(parts[3:], ", ") + " }\n\n"
+}
+
 func g4PMethodCall2(n ast.Node, name string) (*ast.CallExpr, bool) {
 	e, ok := n.(ast.Expr)
 	if !ok {
@@ -565,7 +659,7 @@ func g4LeanChars(s string) string {
 func grammarLean(res *grammarFacts) string {
 	var b strings.Builder
 	b.WriteString("import StorageModel.C12.Grammar\n")
-	b.WriteString("/- GENERATED by /verif/extract (grammar.go) from zitiql/ZitiQl.g4 and zitiql/zitiql_parser.go — do not edit. -/\n")
+	b.WriteString("/- GENERATED by /verif/extract (grammar.go) from zitiql/ZitiQl.g4, zitiql/zitiql_parser.go, ast/bolt_listener.go and the typing functions of package ast — do not edit. -/\n")
 	b.WriteString("namespace StorageModel.Generated\nopen StorageModel.C12\n\n")
 
 	// alternatives of boolExpr, in file order
@@ -640,6 +734,7 @@ func grammarLean(res *grammarFacts) string {
 		prec(andL), andR, andLoop, prec(orL), orR, orLoop, notR, grpR, start)
 
 	b.WriteString(g4ListenerLean(res))
+	b.WriteString(g4TransformLean(res))
 
 	// keyword tokens as fragment sequences
 	b.WriteString("/-- keyword tokens of the lexer grammar, each letter fragment expanded to its character set -/\n")
